@@ -72,17 +72,17 @@ theorem window_strictly_earlier (fromH h i : Nat) (hi : i ∈ (List.range (h - f
 
 /-- **At least once.** When a block at or above the transaction activation is applied, then
     unless it had no usable rates (conversions keep waiting) every batch held at a height of the
-    window `[last rated height, this height)` is considered in this very block: a status
-    (execution height or reject code) is written for it, or it already bears a replay mark, or its
+    window `[last rated height, this height)` is considered in this very block: a non-zero status
+    (execution height or negative reject code) is written for it, or it already bears a replay mark, or its
     conversion could not be computed (dropped: C17's known finding). Together with
     `window_strictly_earlier` and `mark_is_permanent` this is "considered for execution exactly
     once". (`DB.statusLog` is a history variable: the sequence of status writes.) -/
 theorem held_batches_are_considered {P : Params} {c : DB} {b : Block} {avgs : TMap} {s' : DB}
-    (hrun : blockTx P c b avgs c = .ok () s') (htx : b.height ≥ P.act.txConv) :
+    (hpos : 0 < b.height) (hrun : blockTx P c b avgs c = .ok () s') (htx : b.height ≥ P.act.txConv) :
     (∃ s1 s2 st, gradeAndRates P c b s1 = .ok st s2 ∧ st ≠ .cont true) ∨
     ∃ rates, ∀ row ∈ c.holding, (c.mostRecentRatesBefore b.height).2 ≤ row.height → row.height < b.height →
       Considered P b.height rates avgs c s' row.entry :=
-  block_considers_held hrun htx
+  block_considers_held hpos hrun htx
 
 /-- non-vacuity: a concrete holding window in which a funded conversion is executed (a status is
     written), evaluated by the kernel -/
